@@ -539,6 +539,13 @@ func (c *c06Check) runHist(seed, run uint64, t *tape.Tape, s *C06Stats, lines *[
 			if t.Chance(1, 8) {
 				args = append(args, "private?: true")
 			}
+			// `*` / `**` expansions of pool values among the arguments (one or two of each)
+			if t.Chance(1, 6) {
+				args = append([]string{"*" + pick().name}, args...)
+			}
+			for i := t.Pick(5, 1, 1); i > 0; i-- {
+				args = append(args, "**"+pick().name)
+			}
 			src = fmt.Sprintf("%s.%s(%s)", recv.name, opName, strings.Join(args, ", "))
 			if t.Chance(1, 3) {
 				src += " " + callee()
@@ -574,16 +581,31 @@ func (c *c06Check) runHist(seed, run uint64, t *tape.Tape, s *C06Stats, lines *[
 				src = fmt.Sprintf("[%s, *%s, %s]", arg(), recv.name, arg())
 			case 1:
 				opName = "obj"
-				src = fmt.Sprintf("{k: %s, **%s, a: %s}", arg(), recv.name, arg())
+				if t.Chance(1, 2) {
+					src = fmt.Sprintf("{k: %s, a: %s, **%s}", arg(), arg(), recv.name)
+				} else {
+					src = fmt.Sprintf("{k: %s, **%s, **%s}", arg(), recv.name, pick().name)
+				}
 			case 2:
 				opName = "map"
-				src = fmt.Sprintf("%%{%s: %s, **%s}", arg(), arg(), recv.name)
+				if t.Chance(1, 2) {
+					src = fmt.Sprintf("%%{%s: %s, **%s}", arg(), arg(), recv.name)
+				} else {
+					src = fmt.Sprintf("%%{%s: %s, **%s, **%s}", arg(), arg(), recv.name, pick().name)
+				}
 			case 3:
 				opName = "embstr"
 				src = fmt.Sprintf("\"<#{%s}|#{%s}>\"", recv.name, arg())
 			default:
 				opName = "call-unpack"
-				src = fmt.Sprintf("{|a, b, k: 1| [a, b, k, \\0, \\_]}(*%s, **%s)", recv.name, pick().name)
+				switch t.Intn(3) {
+				case 0:
+					src = fmt.Sprintf("{|a, b, k: 1| [a, b, k, \\0, \\_]}(*%s, **%s)", recv.name, pick().name)
+				case 1:
+					src = fmt.Sprintf("{|a, k: 1| [a, k, \\_]}(%s, **%s, **%s)", arg(), recv.name, pick().name)
+				default:
+					src = fmt.Sprintf("{|a, k: 1| [a, k, \\0, \\_]}(*%s, *%s, k: %s, **%s, **{zz: 1})", recv.name, pick().name, arg(), pick().name)
+				}
 			}
 		case 5: // chains with the simulated callee
 			opKind = "chain"
